@@ -964,6 +964,15 @@ def mon_B(case, pid):
             if hits != buffered + added + dropped + in_flight:
                 seen.add("C15")
                 yield finding("C15", st, f"hits {hits} != buffered {buffered} + delivered {added} + dropped {dropped} + reads between lookup and buffer {in_flight}", "C15/records-not-conserved/layerB")
+        if "workerpanic" in out or "panic" in out:
+            seen.add("panicked")
+        if pid == "C13" and pcs.get("w") == "finished" and "panicked" not in seen and "C13gone" not in seen:
+            # the worker thread only ends with the cache (the sender lives as long as the cache does): a worker that has
+            # left while an acknowledgement it was handed is still unanswered leaves that caller waiting for ever
+            pending = [i for i, a in enumerate(snap["acks"]) if a == "pending"]
+            if pending:
+                seen.add("C13gone")
+                yield finding("C13", st, f"the command worker has ended although acknowledgement(s) {pending} are still unanswered: their callers wait for ever", "C13/worker-gone-with-pending-acknowledgements")
         if pid == "C13":
             sd = getattr(mon_B, "_sd", None)
             if sd is None or sd.get("case") is not case or st.index <= sd.get("last", -1):
